@@ -41,7 +41,7 @@ inductive IsData : Val → Prop
   | hash (es : List (Val × Val)) : (∀ e ∈ es, ∃ s, e.1 = .str s) → (∀ e ∈ es, IsData e.2) → IsData (.hash es)
 
 def IsScalarVal : Val → Prop
-  | .str _ | .int _ | .float _ | .bool _ | .regexp _ | .tspan _ => True
+  | .str _ | .int _ | .float _ | .bool _ | .regexp _ | .tspan _ | .tstamp _ => True
   | _ => False
 
 /-- RichData = Scalar ∪ Binary ∪ {default, undef} ∪ object instances ∪ types ∪ arrays of RichData ∪ hashes from strings or numbers to RichData -/
@@ -79,6 +79,7 @@ def Den (t : Ty) (v : Val) : Prop :=
   | .bool none => ∃ b, v = .bool b
   | .bool (some b) => v = .bool b
   | .tspan r => ∃ n, v = .tspan n ∧ InRng r n
+  | .tstamp r => ∃ n, v = .tstamp n ∧ InRng r n
   | .strSz r => ∃ s, v = .str s ∧ InRng r s.length
   | .strVal s => v = .str s
   | .enum vs ci =>
